@@ -52,7 +52,7 @@ def write_replay(prop, module, harness, cfg, sig, choices, detail, trace=None, o
 
 
 def conclude(prop, module, tier, seed, stats, t0, pool, *, assumptions, rule, extra=None, twins=0,
-             exhaustive_note=None, log=print):
+             exhaustive_note=None, explanation=None, log=print):
     """Decide, print, write evidence. Returns the process exit code."""
     known = load_known()
     reported_known = {}
@@ -128,11 +128,11 @@ def conclude(prop, module, tier, seed, stats, t0, pool, *, assumptions, rule, ex
                                     unexplored_prefixes=getattr(cs, 'unexplored_prefixes', None)) for cs in capped],
         per_configuration=[cs.summary() for cs in stats],
         known_findings_reported=reported_known,
-        explanation=('states = nodes of the schedule/choice tree visited (scheduling points of the real code under the '
+        explanation=explanation or ('states = nodes of the schedule/choice tree visited (scheduling points of the real code under the '
                      'controlled scheduler); transitions = edges of that tree; traces_validated_against_impl = '
                      'executions re-run from their recorded choice list with an identical trace (determinism '
                      'validation) + free-running twin runs + confirmed violation replays. Every execution runs the '
-                     'real library code, there is no separate model.' + (' ' + exhaustive_note if exhaustive_note else '')),
+                     'real library code, there is no separate model. For harnesses of kind "cases" (bounded-exhaustive enumeration of programs / inputs / duration vectors) one node is one enumerated case.' + (' ' + exhaustive_note if exhaustive_note else '')),
     )
     if extra:
         coverage.update(extra)
